@@ -128,12 +128,12 @@ Lemma is_nil_false {A} (l : list A) : is_nil l = false <-> l <> [].
 Proof. destruct l; cbn; split; congruence. Qed.
 
 (* simplify only projections of state setters *)
-Ltac sp := cbn [data flag stale nbuf curr losts pdone plog chan shl bwl ws lostcnt gmark kicks stopped joined file
-  set_data set_flag set_stale set_nbuf set_curr set_losts set_pdone set_plog set_chan set_shl set_bwl set_ws
+Ltac sp := cbn [data flag stale nbuf rbase curr losts pdone plog chan shl bwl ws lostcnt gmark kicks stopped joined file
+  set_data set_flag set_stale set_nbuf set_rbase set_curr set_losts set_pdone set_plog set_chan set_shl set_bwl set_ws
   set_lostcnt set_gmark set_kicks set_stopped set_joined set_file].
-Ltac sp_in H := cbn [data flag stale nbuf curr losts pdone plog chan shl bwl ws lostcnt gmark kicks stopped joined file
-  set_data set_flag set_stale set_nbuf set_curr set_losts set_pdone set_plog set_chan set_shl set_bwl set_ws
+Ltac sp_in H := cbn [data flag stale nbuf rbase curr losts pdone plog chan shl bwl ws lostcnt gmark kicks stopped joined file
+  set_data set_flag set_stale set_nbuf set_rbase set_curr set_losts set_pdone set_plog set_chan set_shl set_bwl set_ws
   set_lostcnt set_gmark set_kicks set_stopped set_joined set_file] in H.
-Ltac sp_all := cbn [data flag stale nbuf curr losts pdone plog chan shl bwl ws lostcnt gmark kicks stopped joined file
-  set_data set_flag set_stale set_nbuf set_curr set_losts set_pdone set_plog set_chan set_shl set_bwl set_ws
+Ltac sp_all := cbn [data flag stale nbuf rbase curr losts pdone plog chan shl bwl ws lostcnt gmark kicks stopped joined file
+  set_data set_flag set_stale set_nbuf set_rbase set_curr set_losts set_pdone set_plog set_chan set_shl set_bwl set_ws
   set_lostcnt set_gmark set_kicks set_stopped set_joined set_file] in *.
